@@ -243,8 +243,12 @@ class Repo:
             raise AnalysisError('module %s not found in the working tree' % name)
         return self.modules[name]
 
-    def func(self, qualname):
+    _MISSING = object()
+
+    def func(self, qualname, default=_MISSING):
         if qualname not in self.functions:
+            if default is not Repo._MISSING:
+                return default
             raise AnalysisError('function %s not found (anchor vanished)' % qualname)
         return self.functions[qualname]
 
